@@ -219,9 +219,17 @@ func judgeNum(ctx *Ctx, fn c14NumFn, args []cty.Value, class string, res cty.Val
 			return
 		}
 		if x.IsInf() {
-			// ±inf is a fixed point of ceil, floor and int
+			if fn.name == "int" {
+				// documented domain of int (number.go, Int: "If an infinity is passed to Int, an error is
+				// returned"): EVERY infinity is rejected with a plain error (regression signature of fix f991adf)
+				if class != "err" {
+					fail("int-inf-not-rejected", "int of an infinity did not return the documented error")
+				}
+				return
+			}
+			// ±inf is a fixed point of ceil and floor
 			if class != "ok" || !okNumber(res) || res.AsBigFloat().Cmp(x) != 0 {
-				fail(fn.name+"-inf-not-fixed", "ceil/floor/int of an infinity is not that infinity")
+				fail(fn.name+"-inf-not-fixed", "ceil/floor of an infinity is not that infinity")
 			}
 			return
 		}
@@ -289,6 +297,12 @@ func runC14Numbers(ctx *Ctx) {
 			}
 			if i == 0 && fn.name == "signum" {
 				args = []cty.Value{cty.NumberFloatVal(0.5)} // corpus: witness of the signum defect repaired by 3f9a6a5, must pass
+			}
+			if i < 3 && fn.name == "int" {
+				// corpus: int of an infinity (e69819b: no panic; f991adf: the documented error for EVERY infinity,
+				// the package-level values and an infinity held by another big.Float alike), must pass
+				args = []cty.Value{[]cty.Value{cty.PositiveInfinity, cty.NegativeInfinity,
+					cty.NumberVal(new(big.Float).SetInf(true))}[i]}
 			}
 			out, res, class := stdOut(fn.f, args)
 			ctx.Add("std.num", out, fn.name, wireArgs(args))
